@@ -210,6 +210,15 @@ def check(part, names, n, mode, cat):
         part.violation("lazy", case, "taking a finite prefix did not terminate (watchdog)", tags, "returns", status, size=size)
         return
     if status == "budget":
+        # Does the prefix exist at all within the budget?  The same pipeline on a FINITE list of `budget` items decides:
+        # if even that cannot deliver the requested items, the pipeline needs unboundedly many source items by definition
+        # (e.g. uniquify of a constant stream) - out of domain.  A transformation that merely forces its input still
+        # delivers on the finite twin, so it is still reported.
+        tstatus, tval = run_twin(names, n, mode, cat, budget)
+        short = tstatus == "ok" and ((mode == "slice" and isinstance(tval, list) and len(tval) < n) or tval == ("no item",))
+        if short:
+            part.skip("the requested prefix does not exist within the fuel budget even on a finite list (value-dependent pipeline)")
+            return
         part.violation("lazy", case, "taking a finite prefix forces the source past its fuel budget (non-termination on an infinite list)",
                        tags, "pulls <= %d" % bound, "more than %d pulls" % budget, size=size)
         return
